@@ -119,7 +119,9 @@ def gen_schedule(rng, wl, rcalls, nosem):
 def gen_case(rng, big_ok=True):
     nosem = rng.random() < 0.5
     shared = rng.random() < 0.15
-    lines = ["open %d %d %d" % (rng.choice([100, 4083, 2000, 1]), int(nosem), int(shared))]
+    # S <= 4083 gives the one-page ring (1024 words) the boundary arithmetic below is written for; now and then a
+    # two-page ring (2048 words), where the same calls are nowhere near a boundary
+    lines = ["open %d %d %d" % (rng.choice([100, 4083, 2000, 1, 100, 4083, 2000, 1, 100, 4083, 5000]), int(nosem), int(shared))]
     seq = 1
     pos = 0
     used = 0        # words occupied by unread chunks (upper bound view of the generator)
